@@ -73,6 +73,10 @@ structure Cfg where
   qEveryEntry : Bool
   /-- a queue element is renamed whenever its delegator is the source, whatever record it belongs to -/
   qByDelegator : Bool
+  /-- the functions the message's `To` string goes through in `ValidateBasic` (whose result the signature is checked
+  against) and in the message server (whose result receives the portfolio) -/
+  toParseVB : String
+  toParseSrv : String
   deriving Repr, DecidableEq
 
 /-- the far-future bound that makes `NewPrefixUntilPairRange` cover every queue entry -/
@@ -116,7 +120,9 @@ def cfg : Cfg :=
     qEveryEntry := Gen.C14.queueLoops.map (fun l => (l.1, l.2.1, l.2.2.2)) ==
                      [("ubd.Entries", "", "inside"), ("red.Entries", "", "inside")]
     qByDelegator := Gen.C14.queueLoops.map (fun l => l.2.2.1) ==
-                      ["UBDQueue[i].DelegatorAddress == from.String()", "redQueue[i].DelegatorAddress == from.String()"] }
+                      ["UBDQueue[i].DelegatorAddress == from.String()", "redQueue[i].DelegatorAddress == from.String()"]
+    toParseVB := (Gen.C14.toParseSites.lookup "ValidateBasic").getD ""
+    toParseSrv := (Gen.C14.toParseSites.lookup "MigrateAccount").getD "" }
 
 /-! ## state -/
 def bondedPool : Addr := 901
@@ -166,6 +172,7 @@ structure State where
   redQ : Store Time (List (Addr × Val × Val)) := []
   unbId : Store Nat (Addr × Val × Option Val) := []              -- 0x38: unbonding id ↦ record key
   nextUnbId : Nat := 1
+  blockFirstId : Nat := 1                                         -- the unbonding-id counter at the start of this block
   wdAddr : Store Addr Addr := []
   props : Store Nat Proposal := []
   deposits : Store (Nat × Addr) Nat := []
@@ -273,9 +280,11 @@ def unbond (s : State) (d : Addr) (v : Val) (amt rw : Nat) : Option State :=
                 else touchPost { s1 with dels := put s1.dels (d, v) (sh - amt), delIdx := ins s1.delIdx (v, d) } d v
       some { s2 with valTok := put s2.valTok v (tokOf s2 v - amt) }
 
-/-- `UnbondingDelegation.AddEntry`: same creation height and completion time merge (one block ↔ one time) -/
-def addEntry (es : List (Time × Nat × Nat)) (t amt id : Nat) : List (Time × Nat × Nat) × Bool :=
-  if es.any (fun e => e.1 == t) then (es.map (fun e => if e.1 == t then (e.1, e.2.1 + amt, e.2.2) else e), false)
+/-- `UnbondingDelegation.AddEntry`: an entry with the same creation height (an id handed out in this block: `lo ≤ id`) and
+the same completion time absorbs the amount; otherwise a new entry is appended -/
+def addEntry (es : List (Time × Nat × Nat)) (t amt id lo : Nat) : List (Time × Nat × Nat) × Bool :=
+  if es.any (fun e => e.1 == t && decide (lo ≤ e.2.2)) then
+    (es.map (fun e => if e.1 == t && decide (lo ≤ e.2.2) then (e.1, e.2.1 + amt, e.2.2) else e), false)
   else (es ++ [(t, amt, id)], true)
 
 def undelegate (s : State) (d : Addr) (v : Val) (amt rw : Nat) : Option State :=
@@ -290,7 +299,7 @@ def undelegate (s : State) (d : Addr) (v : Val) (amt rw : Nat) : Option State :=
     | some b =>
       let t := s.now + s.unbondTime
       let id := s1.nextUnbId
-      let (es', isNew) := addEntry es t amt id
+      let (es', isNew) := addEntry es t amt id s.blockFirstId
       some { s1 with bal := b, nextUnbId := id + 1, ubds := put s1.ubds (d, v) es', ubdIdx := ins s1.ubdIdx (v, d),
                      unbId := if isNew then put s1.unbId id (d, v, none) else s1.unbId,
                      ubdQ := put s1.ubdQ t ((get s1.ubdQ t).getD [] ++ [(d, v)]) }
@@ -411,7 +420,7 @@ def vote (s : State) (a : Addr) (id : Nat) : Option State :=
 
 /-! ## migration: `x/migrate` -/
 inductive MErr where
-  | same | sig | migrated | account | validator | toStaking | gov | exec
+  | same | sig | migrated | account | validator | toStaking | gov | exec | toAddr
   deriving Repr, DecidableEq
 
 /-- `DepositPeriodCallback` for one proposal: the refusals the code contains -/
@@ -547,6 +556,33 @@ def sigAccepted {H S : Type} (hash : List Nat → H) (recover : H → S → Opti
     (frm to : Addr) (sig : S) : Bool :=
   recover (hash (signedBytes Gen.C14.signedFields pfx enc frm to)) sig == some to
 
+/-! ### the target as spelled in the message -/
+
+/-- a spelling of the target string: its class (0 = canonical EIP-55 hex with 0x, 1 = any other hex spelling, 2 = bech32
+with the account prefix, 3 = anything else), the 20 bytes it spells (whatever the class; 0 if none) and what go-ethereum's
+total `HexToAddress` makes of the string -/
+structure Spelling where
+  cls : Nat
+  bytes : Addr
+  hex : Addr
+  deriving Repr, DecidableEq
+
+/-- the address a site derives from the string, given the chain of functions it hands the string to (`none` = the site
+rejects the string).  `ValidateEthereumAddress` accepts the canonical hex spelling only; `HexToAddress` is total; any
+other function is read as the most lenient decoder (every spelling of 20 bytes it could accept: canonical hex, bech32) -/
+def parseAt (site : String) (w : Spelling) : Option Addr :=
+  if site == "ValidateEthereumAddress+HexToAddress" then (if w.cls == 0 then some w.hex else none)
+  else if site == "HexToAddress" then some w.hex
+  else if w.cls == 0 then some w.hex else if w.cls == 2 then some w.bytes else none
+
+/-- the message as submitted: `ValidateBasic` derives the address the signature is checked against, the message server
+derives (again, from the string) the address that receives -/
+def migrateMsg {H S : Type} (hash : List Nat → H) (recover : H → S → Option Addr) (pfx : List Nat) (enc : Addr → List Nat)
+    (c : Cfg) (s : State) (frm : Addr) (w : Spelling) (sig : S) : Except MErr State :=
+  match parseAt c.toParseVB w, parseAt c.toParseSrv w with
+  | some tv, some ts => migrate c s frm ts (sigAccepted hash recover pfx enc frm tv sig)
+  | _, _ => .error .toAddr
+
 /-! ## operations -/
 inductive Op where
   | send (a b : Addr) (d : Denom) (n : Nat)
@@ -561,12 +597,13 @@ inductive Op where
   | vote (a : Addr) (id : Nat)
   | block (dt : Nat)
   | setPeriods (dp vp : Nat)
+  | setUnbond (n : Nat)
   | migrate (frm to : Addr) (sigOk : Bool)
   deriving Repr
 
 def endBlock (s : State) (dt : Nat) : State :=
   let s1 := govEnd (stakingEnd s)
-  { s1 with now := s1.now + dt }
+  { s1 with now := s1.now + dt, blockFirstId := s1.nextUnbId }
 
 def ofOpt (s : State) (o : Option State) : State × String :=
   match o with
@@ -576,6 +613,7 @@ def ofOpt (s : State) (o : Option State) : State × String :=
 def errName : MErr → String
   | .same => "err:same" | .sig => "err:sig" | .migrated => "err:migrated" | .account => "err:account"
   | .validator => "err:validator" | .toStaking => "err:to-staking" | .gov => "err:gov" | .exec => "err:exec"
+  | .toAddr => "err:to"
 
 def step (c : Cfg) (s : State) : Op → State × String
   | .send a b d n => ofOpt s ((sendUnlocked s.bal (lockedOf s a d) a b d n).map fun bb => { s with bal := bb })
@@ -590,6 +628,7 @@ def step (c : Cfg) (s : State) : Op → State × String
   | .vote a id => ofOpt s (vote s a id)
   | .block dt => (endBlock s dt, "ok")
   | .setPeriods dp vp => ({ s with depPeriod := dp, votePeriod := vp }, "ok")
+  | .setUnbond n => ({ s with unbondTime := n }, "ok")
   | .migrate frm to sigOk =>
     match migrate c s frm to sigOk with
     | .ok s' => (s', "ok")
